@@ -509,7 +509,8 @@ def free_post(c):
     if len(fprev) != 1 or len(fnext) != 1:
         return z3.BoolVal(False)
     blk_freed = c.st.objs.get('block', {}).get('used')
-    cl = [z3.BoolVal(blk_freed is not None and blk_freed.k == 'bool'), z3.Not(blk_freed.z) if blk_freed is not None else z3.BoolVal(False),
+    cl = [z3.Not(z3.Bool('slot_is_empty')), z3.Bool('block.used'),             # only a block that IS in use is released
+          z3.BoolVal(blk_freed is not None and blk_freed.k == 'bool'), z3.Not(blk_freed.z) if blk_freed is not None else z3.BoolVal(False),
           z3.BoolVal(any(a.oid == 'block' for a in adds))]                      # released and booked as free
     j1 = [e for e in joins if e[1].oid == 'prev']
     merged1 = j1[0][3] if j1 else None
